@@ -690,6 +690,15 @@ class ClassModel:
                 add = []
                 if isinstance(s, (ast.Assign, ast.AnnAssign, ast.AugAssign)):
                     tg = s.targets if isinstance(s, ast.Assign) else [s.target]
+                    # a local bound to a view of a relevant object (x = md.ns('a')) is relevant too: stores into it reach the result
+                    if s.value is not None and len(tg) == 1 and isinstance(tg[0], ast.Name) and tg[0].id not in relevant:
+                        root = s.value
+                        while isinstance(root, (ast.Attribute, ast.Subscript, ast.Call)):
+                            root = root.func if isinstance(root, ast.Call) else root.value
+                        if isinstance(root, ast.Name) and root.id in relevant and root.id != sn and isinstance(s.value, (ast.Call, ast.Attribute, ast.Subscript)):
+                            relevant.add(tg[0].id)
+                            changed = True
+                            continue
                     for t in tg:
                         flat = list(t.elts) if isinstance(t, (ast.Tuple, ast.List)) else [t]
                         for tt in flat:
